@@ -27,11 +27,11 @@ def instances(tier):
     return [('ActorRuntime', 1, True), ('ActorRuntime', 2, True), ('ActorRuntime', 1, False), ('ThreadLocalActorRuntime', 1, True)]
 
 
-def explore(ctx, prog, runtime, budget, with_sup):
+def explore(ctx, prog, runtime, budget, with_sup, cancel_points=False):
     I1, a1, pm = lt.explore_process_message(prog, runtime, budget)
     ctx.absorb(I1)
     S = lt.classes_of(pm)
-    I, a, res = lt.explore_lifecycle(prog, S, runtime, budget, with_sup)
+    I, a, res = lt.explore_lifecycle(prog, S, runtime, budget, with_sup, cancel_points=cancel_points)
     ctx.absorb(I)
     ctx.paths += len(pm) + len(res)
     ctx.extra.setdefault('explorations', []).append({'runtime': runtime, 'poll_budget': budget, 'supervisor': with_sup, 'process_message_paths': len(pm),
